@@ -68,6 +68,12 @@ def gen(tier, rng):
                     for var in VARIANTS:
                         out.append((P.line(var, iv, None, tmo, ex, req_ok, [t0] + readings, sc),
                                     "%s/%s" % (name, "to-none" if tmo is None else "to-set")))
+    # very long sessions: the loop goes on for as long as the server keeps answering pending and the deadline has not passed
+    # (1500 polls here), and then reports the decisive reply
+    for var in VARIANTS:
+        for kk, m in (("pending", 1500), ("fail", 1100), ("slow", 1050), ("pending", 256), ("pending", 101)):
+            out.append((P.line(var, "0" if kk != "pending" else "1", 0 if kk == "fail" else None, None, 10 ** 8, True, [0] + [j * 10 ** 6 for j in range(m + 2)], [kk] * m + ["success"]), "long-session"))
+            out.append((P.line(var, "1", None, 10 ** 15, 7, True, [0] + [j * 10 ** 6 for j in range(m + 2)], [P.NONDEC[j % 3] for j in range(m)] + ["denied"]), "long-session"))
     # integers that are new in the source (gen/srclit.py): as caller timeout and as lifetime (seconds, milliseconds), with clocks
     # that read just before and just after start + n seconds, and as the number of non-decisive replies
     from gen import srclit as S
@@ -89,7 +95,7 @@ def gen(tier, rng):
                             for var in VARIANTS:
                                 i += 1
                                 out.append((P.line(var, P.INTERVALS[i % 6], None, tmo, ex, True, [t0] + readings, sc), "source-literal/%s" % name))
-        if 1 <= n <= 300:
+        if 1 <= n <= 3000:
             for kk in P.NONDEC:
                 for m in (n - 1, n, n + 1):
                     for var in VARIANTS:
